@@ -48,7 +48,8 @@ var gofactsDirs = []string{"cmd/commonflags", "cmd/wuffs", "cmd/wuffs-c", "cmd/w
 	"lib/dumbindent", "lib/interval"}
 
 var watchedImports = map[string]bool{"time": true, "math/rand": true, "math/rand/v2": true, "crypto/rand": true,
-	"runtime": true, "sync": true, "sync/atomic": true, "unsafe": true, "os/user": true, "os/signal": true, "net": true, "reflect": true}
+	"runtime": true, "sync": true, "sync/atomic": true, "unsafe": true, "os/user": true, "os/signal": true, "net": true, "reflect": true,
+	"maps": true, "iter": true, "hash/maphash": true, "os/exec": false}
 
 var envFuncs = map[string]bool{"os.Getenv": true, "os.LookupEnv": true, "os.Environ": true, "os.Hostname": true,
 	"os.Getpid": true, "os.Getppid": true, "os.Getuid": true, "os.Getwd": true, "os.UserHomeDir": true, "os.TempDir": true,
